@@ -41,6 +41,7 @@ type TierConfig struct {
 	Config
 	Solver    string         `json:"Solver"`
 	TimeoutMS int            `json:"TimeoutMS"`
+	FallbackMS int           `json:"FallbackMS"`
 	MaxPaths  int            `json:"MaxPaths"`
 	TimeLimit int            `json:"TimeLimitS"`
 	Skip      bool           `json:"Skip"`
@@ -205,7 +206,7 @@ func RunCheck(verifDir, repoDir, prop, tier string, seed int64, only string, ver
 		if tc.Skip {
 			continue
 		}
-		opts := ExploreOpts{Workers: workers, MaxPaths: tc.MaxPaths, TimeLimit: time.Duration(tc.TimeLimit) * time.Second, Solver: tc.Solver, TimeoutMS: tc.TimeoutMS, KeepScripts: 3}
+		opts := ExploreOpts{Workers: workers, MaxPaths: tc.MaxPaths, TimeLimit: time.Duration(tc.TimeLimit) * time.Second, Solver: tc.Solver, TimeoutMS: tc.TimeoutMS, FallbackMS: tc.FallbackMS, KeepScripts: 3}
 		if opts.Solver == "" {
 			opts.Solver = "z3"
 		}
